@@ -267,6 +267,7 @@ def load_findings():
 
 def write_replay(prop: str, payload: dict) -> Path:
     REPLAYS.mkdir(parents=True, exist_ok=True)
+    payload.setdefault("repo", str(REPO))
     blob = json.dumps(payload, sort_keys=True, default=str)
     h = hashlib.sha256(blob.encode()).hexdigest()[:12]
     path = REPLAYS / f"{prop}-{h}.json"
@@ -275,8 +276,10 @@ def write_replay(prop: str, payload: dict) -> Path:
 
 
 def write_evidence(prop: str, ev: dict):
-    EVID.mkdir(parents=True, exist_ok=True)
-    (EVID / f"{prop}.json").write_text(json.dumps(ev, indent=1, default=str))
+    out = EVID if str(REPO) == "/repo" else BUILD / "evidence-alt"  # mutant runs (VERIF_REPO=scratch) never touch evidence/
+    out.mkdir(parents=True, exist_ok=True)
+    ev.setdefault("coverage", {})["repo"] = str(REPO)
+    (out / f"{prop}.json").write_text(json.dumps(ev, indent=1, default=str))
 
 
 def fresh_tmp(tag: str) -> Path:
